@@ -29,6 +29,14 @@ failure, close by another task, `stop()`, server-side EOF) at every suspension p
 reply and at every awaited write of the burst — (`Op.loginBreak`), losses during which a listener of the
 application stays suspended (`Op.lossHeld`, `Op.release`) and a reconnect by the application (`Op.connect`).
 
+Round 5: the distributed position SURVIVES a loss of the server connection (the parent and the children are peer
+connections): the state carries the parent (name, announced root and level) and the number of children, the
+alphabet has the adoption of a parent named by the server (`Op.parentAdopt`), a parent that moves in the tree
+(`Op.parentLevel`, `Op.parentRoot`) or goes away (`Op.parentLoss`), children that come and go (`Op.childJoin`,
+`Op.childLoss`), and the share index scanned again by the application (`Op.rescan`); every login — the first one, a manual one after a requested disconnect, the watchdog's — announces
+the position the client has AT THAT LOGIN (`envOf` reads the state), and the ghost field `told` records what the
+current server connection was told last.
+
 Time is counted in ticks of 0.5 s (the watchdog's poll interval, network.py:201-206); user / environment
 operations happen just after a tick boundary, timers fire just before one.
 -/
@@ -101,6 +109,10 @@ def branchValues (c : Config) (e : Env) : String × Nat :=
   match e.parent with
   | none => (c.username, 0)
   | some (root, level) => if root = c.username then (c.username, 0) else (root, level + 1)
+
+/-- the branch position told to the server: (level, root, searching for a parent) -/
+def positionOf (c : Config) (e : Env) : Nat × String × Bool :=
+  ((branchValues c e).2, (branchValues c e).1, e.parent.isNone && c.searchForParent)
 
 /-- distributed.py `_notify_server_of_parent` -/
 def hDistributed (c : Config) (e : Env) : List Frame :=
@@ -349,6 +361,13 @@ inductive Reply | accepted | rejected | garbled | eof
 inductive Wd | off | idle | sleeping (n : Nat)
   deriving DecidableEq, Repr
 
+/-- the distributed parent (a peer connection) and what it announced (distributed.py `DistributedPeer`) -/
+structure Parent where
+  name : String
+  root : String
+  level : Nat
+  deriving DecidableEq, Repr
+
 structure State where
   conn : Conn := .uninit
   session : Bool := false
@@ -379,6 +398,13 @@ structure State where
   users : Bool := false            -- some user object / privileged user is stored
   rooms : Bool := false
   params : Bool := false           -- one of the five server-sent distributed parameters is set
+  -- the place in the distributed network: peer connections, they survive a loss of the server connection
+  parent : Option Parent := none
+  children : Nat := 0
+  -- ghost: the branch position (level, root, searching) the CURRENT server connection was told last
+  told : Option (Nat × String × Bool) := none
+  -- the share index after a scan made by the application since start() (folders, files); `none`: as at start()
+  stats : Option (Nat × Nat) := none
   deriving Repr
 
 /-- reader tasks of a closed stream that are suspended inside a listener of the application -/
@@ -427,6 +453,16 @@ inductive Op
                                    -- suspends: `DataConnection.disconnect` does not return before `release`
   | release                        -- the suspended listeners of the application return
   | connect                        -- the application calls `network.connect_server()` on the closed connection
+  | parentAdopt (name root : String) (level : Nat)
+                                   -- the server names a potential parent that accepts the connection; the peer
+                                   -- announces its level and (unless 0) its branch root: it becomes the parent
+  | parentLevel (level : Nat)      -- the parent announces a new branch level
+  | parentRoot (root : String)     -- the parent announces a new branch root
+  | parentLoss                     -- the connection to the parent closes
+  | childJoin                      -- a peer connects to the clear listening port (PeerInit, type D): a child
+  | childLoss                      -- the connection of a child closes
+  | rescan (dirs files : Nat)      -- the application has added files and calls `shares.scan()`: the index now
+                                   -- holds `dirs` folders / `files` files
   | tick
   | setSrvUp (b : Bool)
   | setSrvReply (r : Reply)
@@ -442,10 +478,22 @@ def indirectTicks : Nat := 120
 /-- life of a connect to an unreachable peer: fallback = direct timeout, then indirect timeout; race = both at once -/
 def connectTicks (c : Config) : Nat := if c.race then indirectTicks else directTicks + indirectTicks
 
-def envOf (c : Config) (_st : State) : Env :=
+def envOf (c : Config) (st : State) : Env :=
   { clearPort := if c.clearPort ≠ 0 ∧ ¬ c.clearBindFails then c.clearPort else 0
     obfPort := if c.obfPort ≠ 0 ∧ ¬ c.obfBindFails then c.obfPort else 0
-    dirs := c.dirs, files := c.files, parent := none }
+    -- shares.get_stats() NOW: the index can have been scanned again since the first login
+    dirs := (st.stats.getD (c.dirs, c.files)).1, files := (st.stats.getD (c.dirs, c.files)).2
+    -- the parent the client has NOW: `DistributedNetwork.parent` is not touched by a loss of the server connection
+    parent := st.parent.map (fun p => (p.root, p.level)) }
+
+/-- the branch position of the client in state `st` -/
+def position (c : Config) (st : State) : Nat × String × Bool := positionOf c (envOf c st)
+
+/-- established distributed peer connections (each with its reader task and its socket) -/
+def peerConns (st : State) : Nat := (if st.parent.isSome then 1 else 0) + st.children
+
+/-- `DistributedNetwork._max_children` before any GetUserStats answer (distributed.py `__init__`) -/
+def maxChildren : Nat := 5
 
 /-- network.py `connect_listening_ports`: number of connected listening ports, or `none` when the error mode
     makes `initialize` raise (all ports are then closed again) -/
@@ -472,14 +520,17 @@ def closeServer (r : Reason) (st : State) : State × List Obs :=
         wd := if r = .requested ∨ r = .eof then .off else st.wd
         ping := false, wishlist := false, reader := false
         tracked := [], users := false, rooms := false, params := false
-        session := false },
+        session := false
+        -- the parent and the children stay; what the server was told went to a connection that is gone
+        told := none },
      (if st.session then [.sessionDestroyed] else []) ++ [.closed r])
 
 /-- client.py `login()` on a connected server connection without a session. -/
 def doLogin (c : Config) (st : State) : State × List Obs :=
   match st.srvReply with
   | .accepted =>
-      ({ st with session := true, reader := true, tracked := trackSet c, users := true },
+      ({ st with session := true, reader := true, tracked := trackSet c, users := true
+                 told := some (position c st) },
        [.loginSent, .sessionInit, .frames (burst c (envOf c st)), .loginResult .ok])
   | .rejected => (st, [.loginSent, .loginResult .authError])
   | .garbled => (st, [.loginSent, .loginResult .error])
@@ -552,6 +603,10 @@ def doStop (c : Config) (st : State) : State × List Obs :=
               wishlistTimers := keepN .wishlistTimer st1.wishlistTimers
               pp := if covered .potentialParent then [] else st1.pp
               sr := if covered .searchReply then [] else st1.sr
+              -- every peer connection is disconnected (network.py `disconnect`): the distributed peers are gone;
+              -- `_unset_parent` finds the server connection closing, nothing is sent
+              parent := if covered .reader then none else st1.parent
+              children := if covered .reader then 0 else st1.children
               -- the children of a cancelled creator end with it iff the creator's cancel handler ends them
               orphans := if covered .directConnect && covered .indirectConnect then []
                          else st1.orphans ++ (if c.race then
@@ -614,6 +669,18 @@ def doConnect (c : Config) (st : State) : State × List Obs :=
     let r := closeServer .connectFailed { st with conn := .connecting }
     (r.1, [.attempt] ++ r.2 ++ [.startFailed])
 
+/-- distributed.py `_notify_server_of_parent` as called outside a login (`_set_parent`, `_unset_parent`, the parent
+    announcing a new level / root): with a session the three frames are sent; without one `_unset_parent` returns
+    before and the other callers fail on `self._session.user` (logged by the reader loop) — nothing is sent, the
+    next login announces the position. -/
+def tellPosition (c : Config) (st : State) : State × List Obs :=
+  if st.session then ({ st with told := some (position c st) }, [.frames (hDistributed c (envOf c st))])
+  else (st, [])
+
+/-- the clear listening port accepts connections -/
+def clearOpen (c : Config) (st : State) : Bool :=
+  decide (st.listening ≠ 0) && decide (c.clearPort ≠ 0) && !c.clearBindFails
+
 def Wd.isSleeping : Wd → Bool
   | .sleeping _ => true
   | _ => false
@@ -665,6 +732,46 @@ def step (c : Config) (st : State) : Op → State × List Obs
   | .connect =>
       if st.started ∧ st.stopped = false ∧ st.conn = .closed ∧ st.wd.isSleeping = false then doConnect c st
       else (st, [.invalid])
+  | .parentAdopt name root level =>
+      -- distributed.py `_on_potential_parents` (only with `debug.search_for_parent`), `_check_if_new_parent`,
+      -- `_set_parent`: the pending potential-parent connects — to OTHER users; the request that produced this
+      -- connection has finished or is left to finish (1890ba6) — are cancelled, the server and the children are told
+      if st.reader ∧ c.searchForParent ∧ st.parent = none ∧ st.stopped = false then
+        tellPosition c { st with
+          parent := some { name := name, root := if level = 0 then name else root, level := level }
+          pp := []
+          orphans := if covered .directConnect && covered .indirectConnect then st.orphans
+                     else st.orphans ++ (if c.race then st.pp else []) }
+      else (st, [.invalid])
+  | .parentLevel level =>
+      -- distributed.py `_on_distributed_branch_level`: level 0 means the peer is the root of its branch
+      match st.parent with
+      | some p =>
+          tellPosition c { st with
+            parent := some { p with level := level, root := if level = 0 then p.name else p.root } }
+      | none => (st, [.invalid])
+  | .parentRoot root =>
+      -- distributed.py `_on_distributed_branch_root`: nothing happens when the root is the one already known
+      match st.parent with
+      | some p => if p.root = root then (st, []) else tellPosition c { st with parent := some { p with root := root } }
+      | none => (st, [.invalid])
+  | .parentLoss =>
+      -- distributed.py `_on_state_changed` (peer connection CLOSED) → `_unset_parent`
+      match st.parent with
+      | some _ => tellPosition c { st with parent := none }
+      | none => (st, [.invalid])
+  | .childJoin =>
+      -- distributed.py `_check_if_new_child` / `_add_child`: the server is not told anything
+      if clearOpen c st ∧ st.children < maxChildren ∧ st.stopped = false then
+        ({ st with children := st.children + 1 }, [])
+      else (st, [.invalid])
+  | .childLoss =>
+      if st.children ≠ 0 then ({ st with children := st.children - 1 }, []) else (st, [.invalid])
+  | .rescan d f =>
+      -- shares/manager.py `scan` → `report_shares`: the new counts are reported iff there is a session
+      if st.started ∧ st.stopped = false ∧ c.slowScan = false ∧ c.shareDirs ≠ 0 then
+        ({ st with stats := some (d, f) }, if st.session then [.frames [.sharedFoldersFiles d f]] else [])
+      else (st, [.invalid])
   | .tick => tickWd c (ageAll st)
   | .setSrvUp b => ({ st with srvUp := b }, [])
   | .setSrvReply r => ({ st with srvReply := r }, [])
@@ -697,11 +804,13 @@ def alive (c : Config) (st : State) : List Site :=
   st.tracked.map (fun _ => .tracking) ++ List.replicate st.searchTimers .searchTimer ++
   List.replicate st.wishlistTimers .wishlistTimer ++ st.pp.map (fun _ => .potentialParent) ++
   st.sr.map (fun _ => .searchReply) ++ raceChildren c (st.pp ++ st.sr ++ st.orphans) ++
+  -- the reader of every distributed peer connection
+  List.replicate (peerConns st) .reader ++
   -- not the library's to end: they are suspended in code of the application
   List.replicate st.heldReaders .reader
 
-/-- open sockets of the library: the server connection and the listening ports -/
-def openSockets (st : State) : Nat := (if st.conn = .connected then 1 else 0) + st.listening
+/-- open sockets of the library: the server connection, the listening ports and the distributed peer connections -/
+def openSockets (st : State) : Nat := (if st.conn = .connected then 1 else 0) + st.listening + peerConns st
 
 /-- server-derived state is empty -/
 def cleared (st : State) : Prop :=
